@@ -9,6 +9,7 @@ import FFVerif.Model.Diag
 import FFVerif.Model.Tensor
 import FFVerif.Model.SecondOrder
 import FFVerif.Model.Gradient
+import FFVerif.Model.GradientAsm
 import FFVerif.Model.Pulse
 import FFVerif.Model.Concat
 import FFVerif.Model.Basis
@@ -19,6 +20,10 @@ import FFVerif.Model.Validate
 import FFVerif.Model.ConcatLogic
 import FFVerif.Model.ExtendLogic
 import FFVerif.Model.Registers
+import FFVerif.Model.SuperopKraus
+import FFVerif.Model.RemapDef
+import FFVerif.Model.Tile
+import FFVerif.Model.Shifts
 
 namespace FFVerif.Model
 open FFVerif FFVerif.Proto
@@ -70,7 +75,7 @@ def handleMore (toks : List String) : String :=
     "ok " ++ showFloats #[v]
   | toks =>
     -- components that live in their own model files
-    let handlers : List (List String → Option String) := [handleDiag, Tensor.handleTensor, handleSecondOrder, handleGradient, Pulse.handlePulse, handleBasis, handleCumulant, Cache.handleCacheTrace, Effects.handleEffects, Validate.handleValidate, ConcatLogic.handleConcatLogic, ExtendLogic.handleExtendLogic, Registers.handleRegisters]
+    let handlers : List (List String → Option String) := [handleDiag, Tensor.handleTensor, handleSecondOrder, handleGradient, handleGradientAsm, Pulse.handlePulse, handleBasis, handleCumulant, Cache.handleCacheTrace, Effects.handleEffects, Validate.handleValidate, ConcatLogic.handleConcatLogic, ExtendLogic.handleExtendLogic, Registers.handleRegisters, handleSuperopKraus, RemapDef.handleRemapDef, handleSuperop, handleTile, handleShifts]
     match handlers.findSome? (fun h => h toks) with
     | some r => r
     | none => "err bad-op"
